@@ -19,6 +19,7 @@ import (
 	"github.com/cloudflare/circl/zk/dl"
 	"github.com/cloudflare/circl/zk/dleq"
 	"github.com/cloudflare/circl/zk/qndleq"
+	"golang.org/x/crypto/sha3"
 	"github.com/cloudflare/circl/zzverif/vlib"
 )
 
@@ -515,6 +516,7 @@ func proofs(o *vlib.Out, rng *rand.Rand, reps int) {
 		vlib.Die("rsa: %v", err)
 	}
 	N := key.N
+	nonUnit := new(big.Int).Mul(key.Primes[0], big.NewInt(12345)) // a multiple of one prime factor
 	agg := map[string]*line{}
 	rec := func(site string, f func() bool) {
 		l := agg[site]
@@ -571,9 +573,34 @@ func proofs(o *vlib.Out, rng *rand.Rand, reps int) {
 		})
 		rec("zero-response", func() bool { return qndleq.Proof{Z: big.NewInt(0), C: pr.C, SecParam: sec}.Verify(g, gx, h, hxBad, N) })
 		rec("identity-elements", func() bool { return qndleq.Proof{Z: pr.Z, C: pr.C, SecParam: sec}.Verify(one, one, h, hxBad, N) })
+		// statement elements that are not units modulo N (0, a multiple of a prime factor): not members of the group at all.  The proofs are
+		// assembled the way a prover would who only knows log_g(gx): the challenge is computed over the commitment that a verifier ends up
+		// with if it does not notice that the element cannot be inverted (h^Z * e^C with e^C = 0 resp. a non-unit)
+		for _, e := range []*big.Int{big.NewInt(0), new(big.Int).Set(N), nonUnit} {
+			r := new(big.Int).Rand(rng, new(big.Int).Lsh(N, 256))
+			gP := new(big.Int).Exp(g, r, N)
+			for _, hPguess := range []*big.Int{big.NewInt(0), new(big.Int).Exp(h, r, N)} {
+				c := qnChallenge(g, gx, h, e, gP, hPguess, N, sec)
+				z := new(big.Int).Add(new(big.Int).Mul(c, x), r)
+				rec("statement-nonunit", func() bool { return qndleq.Proof{Z: z, C: c, SecParam: sec}.Verify(g, gx, h, e, N) })
+				rec("statement-nonunit", func() bool { return qndleq.Proof{Z: z, C: c, SecParam: sec}.Verify(g, e, h, hx, N) })
+			}
+		}
 	}
 	for _, l := range agg {
 		o.Emit(*l)
 	}
 }
 
+// qnChallenge is the Fiat-Shamir challenge of zk/qndleq as its documentation defines it: SHAKE256 over the fixed-width big-endian
+// encodings of g, h, g^x, h^x and the two commitments, truncated to the security parameter.
+func qnChallenge(g, gx, h, hx, gP, hP, N *big.Int, sec uint) *big.Int {
+	n := (N.BitLen() + 7) / 8
+	H := sha3.NewShake256()
+	for _, v := range []*big.Int{g, h, gx, hx, gP, hP} {
+		_, _ = H.Write(new(big.Int).Mod(v, new(big.Int).Lsh(big.NewInt(1), uint(8*n))).FillBytes(make([]byte, n)))
+	}
+	out := make([]byte, (sec+7)/8)
+	_, _ = H.Read(out)
+	return new(big.Int).SetBytes(out)
+}
